@@ -1435,6 +1435,9 @@ impl LpgStore {
             index.resize(label_id as usize + 1, FxHashMap::default());
         }
         index[label_id as usize].insert(node_id, ());
+        // Release the index before taking `nodes`: delete_node takes `nodes` first and the
+        // label index second, so holding the index here could deadlock with it.
+        drop(index);
 
         // Update label count in node record
         if let Some(chain) = self.nodes.write().get_mut(&node_id)
@@ -1549,6 +1552,8 @@ impl LpgStore {
         if (label_id as usize) < index.len() {
             index[label_id as usize].remove(&node_id);
         }
+        // Release the index before taking `nodes` (see add_label).
+        drop(index);
 
         // Update label count in node record
         if let Some(chain) = self.nodes.write().get_mut(&node_id)
